@@ -281,6 +281,67 @@ func nextAttemptOrders(p *packages.Package) []string {
 	return res
 }
 
+// deliverToSubscription: the sort keys of the predecessor query (`Order(...)`), in order. A function
+// literal that orders by `EXISTS(select from deliveries n where n.not_before_id = <this row>.id)`
+// ascending (rows nobody waits on first) is reported as "Asc:HasSuccessor".
+func predecessorOrder(p *packages.Package) []string {
+	fd := funcDecl(p, "", "deliverToSubscription")
+	var res []string
+	if fd == nil {
+		return res
+	}
+	ast.Inspect(fd.Body, func(n ast.Node) bool {
+		c, ok := n.(*ast.CallExpr)
+		if !ok {
+			return true
+		}
+		se, ok := c.Fun.(*ast.SelectorExpr)
+		if !ok || se.Sel.Name != "Order" || len(res) > 0 {
+			return true
+		}
+		for _, a := range c.Args {
+			switch x := a.(type) {
+			case *ast.CallExpr:
+				if len(x.Args) == 1 {
+					res = append(res, strings.TrimPrefix(exprName(x.Fun), "ent.")+":"+strings.TrimPrefix(exprName(x.Args[0]), "delivery.Field"))
+				} else {
+					res = append(res, "?")
+				}
+			case *ast.FuncLit:
+				var calls, names []string
+				ast.Inspect(x.Body, func(m ast.Node) bool {
+					switch y := m.(type) {
+					case *ast.CallExpr:
+						calls = append(calls, exprName(y.Fun))
+					case *ast.SelectorExpr:
+						names = append(names, exprName(y))
+					}
+					return true
+				})
+				has := func(l []string, w string) bool {
+					for _, e := range l {
+						if e == w {
+							return true
+						}
+					}
+					return false
+				}
+				switch {
+				case has(calls, "s.OrderExpr") && has(calls, "sql.Exists") && !has(calls, "sql.Desc") && !has(calls, "sql.NotExists") &&
+					has(names, "delivery.NotBeforeColumn") && has(names, "delivery.FieldID") && has(names, "delivery.Table") && has(calls, "sql.ColumnsEQ"):
+					res = append(res, "Asc:HasSuccessor")
+				default:
+					res = append(res, "func:?")
+				}
+			default:
+				res = append(res, "?")
+			}
+		}
+		return true
+	})
+	return res
+}
+
 // every `case <-pubNotify:` of MessageStreamer.Go: does its body start by taking a new awaiter
 func streamerRenewals(p *packages.Package) []string {
 	fd := funcDecl(p, "MessageStreamer", "Go")
@@ -894,6 +955,7 @@ func main() {
 	fmt.Fprintf(&out, "/-- in the RETRY loop of GetSubscriptionMessages.execute the awaiter is registered before the query transaction -/\ndef pullRegistersBeforeQuery : Bool := %v\n", regFirst)
 	fmt.Fprintf(&out, "/-- the cases of that loop's select and how each ends -/\ndef pullSelectCases : List String := %s\n", q(selCases))
 	fmt.Fprintf(&out, "/-- the sort order of the queries of GetSubscriptionMessages.nextAttempt (the wake-up time of a waiting pull) -/\ndef nextAttemptOrders : List String := %s\n", q(nextAttemptOrders(act)))
+	fmt.Fprintf(&out, "/-- the sort keys of the predecessor query of deliverToSubscription -/\ndef predecessorOrder : List String := %s\n", q(predecessorOrder(act)))
 	fmt.Fprintf(&out, "/-- the transaction closures of GetSubscriptionMessages.execute that select candidates: do they record the attempt too -/\ndef pullTxShape : List String := %s\n", q(pullTxShape(act)))
 	fmt.Fprintf(&out, "/-- every `case <-pubNotify` of MessageStreamer.Go: does it take a new awaiter first -/\ndef streamerRenewals : List String := %s\n", q(streamerRenewals(act)))
 	fmt.Fprintf(&out, "/-- every Send / SendBatch of the sender goroutine of MessageStreamer.Go: are the fetched deliveries entered into `pending` before it -/\ndef streamerBooksBeforeSend : List String := %s\n", q(streamerBooksBeforeSend(act)))
